@@ -4,24 +4,45 @@
 (* "Well-bracketed" is a discipline of the environment: a caller lets go of its token trees before the  *)
 (* drain that closes its outermost bracket (guard of PDrain), and frees only at count 0.                *)
 EXTENDS Integers, Sequences, FiniteSets, TLC
-CONSTANTS SlabSize,      \* kNumberOfObjects: 1024 in the code
+CONSTANTS
+          \* @type: Int;
+          SlabSize,      \* kNumberOfObjects: 1024 in the code
+          \* @type: Set(Int);
           Docs,          \* document ids
+          \* @type: Int -> Int;
           Need,          \* Need[d] = tokens a conversion of d allocates
+          \* @type: Set(Int);
           Engines,       \* engine slots a caller may hold trees in
-          MaxHist, KeepHist,
+          \* @type: Int;
+          MaxHist,
+          \* @type: Bool;
+          KeepHist,
+          \* @type: Bool;
           Defect_CountOnlyFirstInit,   \* seeded-defect classes, to show the invariants are not vacuous
+          \* @type: Bool;
           Defect_NoResetOnDrain
-VARIABLES exists,        \* token_pool != NULL
+VARIABLES
+          \* @type: Bool;
+          exists,        \* token_pool != NULL
+          \* @type: Int;
           count,         \* token_pool_count
+          \* @type: Int;
           depth,         \* the environment's own bracket depth: inits not yet matched by a drain
+          \* @type: Int;
           slabs,         \* slabs on pool.allocated in the current epoch
+          \* @type: Int;
           nextSlot,      \* pool.next as an object offset into the newest slab; SlabSize = "next == last"
+          \* @type: Int;
           epoch,         \* bumped whenever slabs are released: <<epoch, slab>> names one malloc'd slab
+          \* @type: Int -> <<Int, Int, Int>>;
           held,          \* Engines -> 0 (nothing) or the <<epoch, firstObj, lastObj>> range its tree lives in
+          \* @type: Bool;
           stale,         \* TRUE if next/last still point into a released slab (only with Defect_NoResetOnDrain)
+          \* @type: Seq({a: Str, d: Int, e: Int});
           hist
 vars == <<exists, count, depth, slabs, nextSlot, epoch, held, stale, hist>>
 
+\* @type: <<Int, Int, Int>>;
 Nothing == <<0, 0, 0>>
 Init == /\ exists = FALSE /\ count = 0 /\ depth = 0 /\ slabs = 0 /\ nextSlot = SlabSize /\ epoch = 0
         /\ held = [e \in Engines |-> Nothing] /\ stale = FALSE /\ hist = <<>>
@@ -85,4 +106,14 @@ ReleasedAtOutermostDrain == (exists /\ depth = 0) => slabs = 0
 CleanStart == (stale /\ slabs = 0) => (nextSlot = SlabSize)
 CleanAfterFree == ~exists => (slabs = 0 /\ nextSlot = SlabSize /\ count = 0)
 CounterAgrees == count = depth          \* the use counter is the environment's bracket depth
+\* ---- inductive invariant (spec/apalache/TokenPoolInd.tla: discharged by Apalache for histories of any length; checked by TLC as an ordinary invariant too)
+IndInv == /\ DOMAIN held = Engines
+          /\ count = depth /\ depth >= 0 /\ epoch >= 0 /\ slabs >= 0
+          /\ nextSlot >= 0 /\ nextSlot <= SlabSize
+          /\ ~stale
+          /\ (slabs = 0 => nextSlot = SlabSize)
+          /\ (~exists => depth = 0)
+          /\ (depth = 0 => slabs = 0)
+          /\ \A e \in Engines : \/ held[e] = Nothing
+                                \/ (depth > 0 /\ held[e][1] = epoch /\ held[e][2] >= 1 /\ held[e][2] <= held[e][3] /\ held[e][3] <= Pos)
 =============================================================================
